@@ -52,6 +52,10 @@ func (c *client) Create(ctx context.Context, record kvs.Record) (string, error) 
 		return "", checkErr(err)
 	}
 	if !ok {
+		// report the version of the record that is there (the Storage contract for Create)
+		if val, err := c.rdb.Get(ctx, rKey(record.Key)).Result(); err == nil {
+			return db2rec(cast.StringToByteArray(val)).Version, errors.ErrExist
+		}
 		return "", errors.ErrExist
 	}
 	return record.Version, nil
